@@ -1,7 +1,7 @@
 (* C06 -- Folding: lines <= 75 octets, no split characters, exact unfolding.
    Only statements: each is closed by [exact] of a lemma from Proofs/ and followed by
    Print Assumptions.  Strings are lists of code points; [bytes] counts UTF-8 octets. *)
-Require Import Lib.Base Gen.Gen_parser Model.Fold Proofs.FoldProofs.
+Require Import Lib.Base Gen.Gen_parser Model.Fold Model.Params Model.Contentline Model.Tree Proofs.FoldProofs Proofs.LinesProofs Proofs.TreeProofs.
 
 (* Structure of every folded line (for all code-point lists without LF):
    the physical (CRLF-separated) lines are a first segment h and then, for each further
@@ -33,6 +33,19 @@ Theorem C06_fold_fast_eq : forall l, is_ascii l = true ->
   foldline l = fold_gen fold_limit fold_sep 0 l.
 Proof. exact fold_fast_eq. Qed.
 Print Assumptions C06_fold_fast_eq.
+
+(* the same for every line of every serialised component: whatever the tree, if it serialises at all
+   then every physical line of the output has at most 75 octets ... *)
+Theorem C06_component_width : forall sorted t text, ser sorted t = Ok text ->
+  Forall (fun ln => (bytes ln <= 75)%nat) (phys_lines text).
+Proof. exact ser_width. Qed.
+Print Assumptions C06_component_width.
+
+(* ... and reading the output back (unfold regex + line split) restores exactly the content lines *)
+Theorem C06_lines_roundtrip : forall ls, forallb good_line ls = true ->
+  contentlines_from_ical (contentlines_to_ical ls) = ls.
+Proof. exact lines_roundtrip. Qed.
+Print Assumptions C06_lines_roundtrip.
 
 (* non-vacuity: a line with a 4-octet character straddling the boundary is in the domain
    and really is folded *)
